@@ -102,7 +102,7 @@ def run(ctx):
                     if zero_arm is None:
                         continue
                     other = ft if zero_arm == tt else tt
-                    region = cfg.reach(g_, [zero_arm], avoid=[other])
+                    region = cfg.explore(g_, zero_arm, avoid=[other])[0]   # variant-tracked: an `Ok(None)` handed to the caller stays None
                     news = g_.calls_to(r"atomic::Atomic::<u32>::new$")
                     ok = not any(c.bb in region for c in news) and not any(c.bb in region for c in g_.calls_to(r"cache_next_reference_id$"))
         ctx.check(ok, P, "nothing-missing-no-lock-write", "without a lock, a tree with nothing missing ends before the counter or the lock write", g_.where())
